@@ -43,6 +43,8 @@ var c10CliBodies = []string{
 	`{1}/{hi 4096}/{0}`,
 	`{code}:{hi 123456}`,
 	`{coalesce {1} {hi 7777777}}`,
+	`{if {0} "yes sir" "no sir"} {hi 5000}`,
+	`{hi 1234567} {format "%s units" {0}}`,
 }
 
 var c10CliArgs = []string{`{code}`, `{2}`, `{1}`, `1234567`, `42`, `{verb}`, `{sumi {code} 100000}`, `""`, `{3}`}
@@ -103,6 +105,9 @@ func c10CliGen(t *simrt.Tape, fns []string) *c10CliScenario {
 			file.WriteString(text[:sp+1] + "\\\n    " + text[sp+1:])
 		} else {
 			file.WriteString(text)
+		}
+		if t.WBool(1, 3) {
+			file.WriteString("   # what it is for")
 		}
 		file.WriteString("\n")
 		if t.WBool(1, 4) {
